@@ -125,9 +125,11 @@ FIXED = {
  "fs:delete-nonempty-bucket": "dbc4627",
  "fs:delete-missing-key-error": "fe75a0e",
  "fs:missing-bucket-reported-as-missing-key": "391a940",
+ "fs:delete-objects-in-missing-bucket": "902249e",
 }
 # repairs whose text says explicitly that it describes the code before the repair
-BEFORE = {"fs:head-missing-key-code", "fs:delete-missing-key-error", "fs:missing-bucket-reported-as-missing-key"}
+BEFORE = {"fs:head-missing-key-code", "fs:delete-missing-key-error", "fs:missing-bucket-reported-as-missing-key",
+          "fs:delete-objects-in-missing-bucket"}
 
 lines, findings = [], []
 for i, (cls, ops, what) in enumerate(W, 1):
